@@ -409,7 +409,7 @@ fn main() {
     ck.assume("the MatMulNBits operator level is covered elsewhere");
     ck.set_threads(8);
 
-    let n = ck.pick(50_000, 2_000_000);
+    let n = ck.pick(80_000, 1_000_000);
     ck.prop("matmul", n, case, oracle);
     ck.enumerate(
         "new-validation",
